@@ -11,7 +11,7 @@ namespace PebblesVerif
 
 /-- `Value.Raw` as the lexer leaves it -/
 def Value.raw : Value → String
-  | .var n => n
+  | .var n _ => n
   | .int s => s
   | .float s => s
   | .str s => s
@@ -67,24 +67,35 @@ def setStr (k v : String) : List (String × String) → List (String × String)
   | [] => [(k, v)]
   | (k', v') :: rest => if k = k' then (k, v) :: rest else (k', v') :: setStr k v rest
 
-/-- variables directly inside a list / input-object argument value (one level; deeper nesting of
-    VARIABLES inside lists of objects is outside the modelled region) -/
-def childVarTypes (schema : Schema) (ad : ArgDef) (v : Value) (acc : List (String × String)) : List (String × String) :=
-  match v with
-  | .list vs =>
-    let elemT := match ad.type with
-      | .list t => t.toString
-      | .nonNull (.list t) => t.toString
-      | t => t.toString
-    vs.foldl (fun acc x => match x with | .var n => setStr n elemT acc | _ => acc) acc
-  | .object fs =>
-    match schema.type? ad.type.name with
-    | none => acc
-    | some td => fs.foldl (fun acc (k, x) =>
-        match x, td.field? k with
-        | .var n, some fd => setStr n fd.type.toString acc
-        | _, _ => acc) acc
-  | _ => acc
+mutual
+  /-- variables inside a list / input-object argument value, each with the type the validator
+      expects at its position (`walkChildrenArgumentList`: list elements take `ExpectedType`, object
+      fields the declared input-field type — the same thing for a valid operation) -/
+  def childVarTypes : Value → List (String × String) → List (String × String)
+    | .var n et, acc => setStr n et acc
+    | .list vs, acc => childVarTypesL vs acc
+    | .object fs, acc => childVarTypesO fs acc
+    | _, acc => acc
+  def childVarTypesL : List Value → List (String × String) → List (String × String)
+    | [], acc => acc
+    | v :: vs, acc => childVarTypesL vs (childVarTypes v acc)
+  def childVarTypesO : List (String × Value) → List (String × String) → List (String × String)
+    | [], acc => acc
+    | (_, v) :: fs, acc => childVarTypesO fs (childVarTypes v acc)
+end
+
+/-- one argument of a field: a variable is declared with the ARGUMENT's declared type; variables
+    nested in list / object literals with their expected types (only when the argument's named type
+    is known to the schema) -/
+def argVarTypes (schema : Schema) (argDefs : List ArgDef) (acc : List (String × String)) (a : Arg) : List (String × String) :=
+  match argDefs.find? (·.name == a.name) with
+  | none => acc
+  | some ad =>
+    match a.value with
+    | .var n _ => setStr n ad.type.toString acc
+    | .list (x :: xs) => if (schema.type? ad.type.name).isSome then childVarTypesL (x :: xs) acc else acc
+    | .object (x :: xs) => if (schema.type? ad.type.name).isSome then childVarTypesO (x :: xs) acc else acc
+    | _ => acc
 
 mutual
   /-- `Formatter.walkArgumentList`: variable name ↦ declared type of the argument position
@@ -93,17 +104,7 @@ mutual
     | [], acc => acc
     | s :: rest, acc => walkArgs schema rest (walkArgsSel schema s acc)
   def walkArgsSel (schema : Schema) : Sel → List (String × String) → List (String × String)
-    | .field _ _ args _ _ argDefs sub, acc =>
-      let acc1 := args.foldl (fun acc a =>
-        match argDefs.find? (·.name == a.name) with
-        | none => acc
-        | some ad =>
-          match a.value with
-          | .var n => setStr n ad.type.toString acc
-          | .list (x :: xs) => if (schema.type? ad.type.name).isSome then childVarTypes schema ad (.list (x :: xs)) acc else acc
-          | .object (x :: xs) => if (schema.type? ad.type.name).isSome then childVarTypes schema ad (.object (x :: xs)) acc else acc
-          | _ => acc) acc
-      walkArgs schema sub acc1
+    | .field _ _ args _ _ argDefs sub, acc => walkArgs schema sub (args.foldl (argVarTypes schema argDefs) acc)
     | .inline _ _ _ _ sub, acc => walkArgs schema sub acc
     | .spread .., acc => acc
 end
@@ -135,7 +136,7 @@ def stepOpName (c : PCtx) (st : Step) : Option String :=
 
 mutual
   def renderValue : Value → String
-    | .var n => "$" ++ n
+    | .var n _ => "$" ++ n
     | .int s => s
     | .float s => s
     | .str s => "\"" ++ s ++ "\""
